@@ -74,6 +74,7 @@ Proof. exact gate_set_tpt. Qed.
 Theorem C02_claim_covered : forall e w A,
   ClaimInv w A -> CoverInv w -> pay_token (st w) <> lp_token (st w) -> caller e <> sc_addr ->
   get_launch_stage e (st w) = Claim -> claimed (st w) (caller e) = false ->
+  blacklisted (st w) (caller e) = false ->
   range (st w) (caller e) <> None ->
   exists w',
     claim_launchpad_tokens default_send e w = Ok w' /\ ClaimInv w' A /\ CoverInv w' /\
@@ -88,6 +89,7 @@ Theorem C02_claim_covered_locked : forall e w A,
   ClaimInv w A -> CoverInv w -> pay_token (st w) <> lp_token (st w) -> caller e <> sc_addr ->
   lock_sc (st w) <> sc_addr -> lock_pct (st w) <= MAX_PERCENTAGE -> 0 < tpt (st w) ->
   get_launch_stage e (st w) = Claim -> claimed (st w) (caller e) = false ->
+  blacklisted (st w) (caller e) = false ->
   range (st w) (caller e) <> None ->
   exists w',
     claim_launchpad_tokens send_locked_launchpad_tokens e w = Ok w' /\ ClaimInv w' A /\ CoverInv w' /\
